@@ -11,6 +11,8 @@ var Checks = map[string]func(*Env) int{
 	"C07": CheckC07,
 	"C08": CheckC08,
 	"C09": CheckC09,
+	"C10": CheckC10,
+	"C14": CheckC14,
 	"C11": CheckC11,
 	"C12": CheckC12,
 }
